@@ -34,7 +34,7 @@ SPMAP = {s: i + 1 for i, s in enumerate(cio.SYMBOLS)}
 MODEL_INVS = ["TypeOK", "InvOrderIsPermutation", "InvSameCrystal", "InvSameMoments", "InvOrder",
               "InvGroupingIsTrait", "InvIdempotent", "InvForcesPaired", "InvNotRefused", "InvRefusedIffReordered",
               "InvForcesPairedSameOrder", "InvMispairedOnlyUnchecked", "InvSymPaired", "InvConvertCrystal",
-              "InvConvertible", "InvZeroRef", "InvFixedRange"]
+              "InvConvertible", "InvZeroRef", "InvFixedRange", "InvRowOrderIrrelevant"]
 
 CFG_MODEL = """INIT Init
 NEXT Next
@@ -146,8 +146,8 @@ def rt_result(calc, orig, back, idmap=None):
 
 
 def event(kind, calc, abs_cell, result, fs=None, tag="", route="api", ocalc="", ncl=False, mode=None, orbit=None,
-          zref=None):
-    return dict(kind=kind, calc=calc, cell=[dict(sp=a["sp"], id=a["id"], mom=a["mom"]) for a in abs_cell],
+          zref=None, rows=None):
+    return dict(rows=list(rows or []), kind=kind, calc=calc, cell=[dict(sp=a["sp"], id=a["id"], mom=a["mom"]) for a in abs_cell],
                 result=result, fs=fs or NOFS, tag=tag, route=route, ocalc=ocalc, ncl=bool(ncl),
                 mode=dict(mode or NOMODE), orbit=list(orbit or []), zref=dict(zref or NOREF))
 
@@ -155,7 +155,7 @@ def event(kind, calc, abs_cell, result, fs=None, tag="", route="api", ocalc="", 
 def ev_to_tla(d):
     """event -> TLA+ record of CalculatorsTrace"""
     return to_tla(dict(n=d["n"], kind=d["kind"], route=d["route"], ecalc=d["calc"], ocalc=d["ocalc"], ecell=d["cell"],
-                       ncl=d["ncl"], emode=d["mode"], eorbit=d["orbit"], ezref=d["zref"], eres=d["result"], fs=d["fs"]))
+                       ncl=d["ncl"], emode=d["mode"], eorbit=d["orbit"], ezref=d["zref"], erows=d["rows"], eres=d["result"], fs=d["fs"]))
 
 
 def MOM_OF(i):      # MomOf of Calculators.tla
@@ -310,6 +310,12 @@ def force_tokens(rows, table, tol=None, own=None):
     return toks, worst
 
 
+def row_order(n, k, nprng):
+    """row orders of an output: identity, reversed, cyclic shift (not an involution for n >= 3), random"""
+    idn = list(range(n))
+    return [idn, idn[::-1], idn[1:] + idn[:1], [int(x) for x in nprng.permutation(n)]][k % 4]
+
+
 def reference_variants(n, own, nprng):
     """foreign perfect-supercell reference files: permutations fixing k of n atoms for every possible k
     (line j lists atom p[j]), one atom displaced, all displaced"""
@@ -384,7 +390,7 @@ def supercell_pipeline(ctx, seqs, nprng, smat=((2, 0, 0), (0, 1, 0), (0, 0, 1)),
                                         tag="write_supercells_with_displacements: %s: %s" % (type(e).__name__, e)))
                     ctx.count(("sc", calc, tuple(seq), dtype, fz, moments))
                     continue
-                fs_files, fs_rows = [], []
+                fs_files, fs_rows, fs_perm = [], [], []
                 resid = nprng.uniform(-0.5, 0.5, size=(n, 3))
                 resid -= resid.mean(axis=0)
                 for k in range(0, nwrite + 1):
@@ -431,13 +437,18 @@ def supercell_pipeline(ctx, seqs, nprng, smat=((2, 0, 0), (0, 1, 0), (0, 0, 1)),
                                 if fz and t > 0:
                                     f_ = f_ + resid[(t - n - 1) if t > n else (t - 1)]
                                 ff.append(f_)
+                        rowq = None
                         if calc == "vasp":
                             emit_vasprun("vasprun-%03d.xml" % k, back, ff)
                             fs_files.append("vasprun-%03d.xml" % k)
                         else:
-                            fs_files.append(cio.emit_output(calc, "calcout-%03d" % k, back, ff, supercell_lattice=sc.cell))
+                            if calc == "lammps" and k > 0:     # row order of the dump (rows carry the atom id)
+                                rowq = row_order(len(back), k, nprng)
+                            fs_files.append(cio.emit_output(calc, "calcout-%03d" % k, back, ff, supercell_lattice=sc.cell,
+                                                            row_order=rowq))
                         if k > 0:
                             fs_rows.append((acell, r, tag, fvec))
+                            fs_perm.append([q_ + 1 for q_ in rowq] if rowq is not None else [])
                     if not (with_fs and k > 0 and back is not None):
                         events.append(event("rt", calc, acell, r, route="sc", ncl=ncl, tag=tag))
                 if with_fs and len(fs_rows) == len(dcells) and len(fs_files) == len(dcells) + (1 if fz else 0):
@@ -446,11 +457,35 @@ def supercell_pipeline(ctx, seqs, nprng, smat=((2, 0, 0), (0, 1, 0), (0, 0, 1)),
                         phyml = PhonopyYaml()
                         phyml.read("phonopy_disp.yaml")
                     fss = collect_force_sets(calc, fs_files, phyml, ph, fs_rows, fz, margins)
-                    for (acell, r, tag, _fv), fs in zip(fs_rows, fss):
+                    for (acell, r, tag, _fv), fs, rq in zip(fs_rows, fss, fs_perm):
                         events.append(event("forces", calc, acell, r, fs=fs, route="sc", ncl=ncl, mode=mode,
-                                            orbit=list(range(1, n + 1)),
-                                            tag=tag + " + create_FORCE_SETS(type %d%s)" % (dtype, ", fz" if fz else "")))
+                                            orbit=list(range(1, n + 1)), rows=rq,
+                                            tag=tag + " + create_FORCE_SETS(type %d%s)%s"
+                                            % (dtype, ", fz" if fz else "", (", rows %s" % rq) if rq else "")))
                         nfs += 1
+                    if calc == "vasp" and not fz and n >= 2 and all(r_["status"] == "ok" for (_a, r_, _t, _f) in fs_rows):
+                        # the displaced runs' vasprun.xml with the ROWS (positions and forces together) in another
+                        # order: positions only, no ids -> must be refused
+                        vfiles = []
+                        rq = row_order(n, int(nprng.integers(1, 4)), nprng)
+                        if rq == list(range(n)):
+                            rq = rq[1:] + rq[:1]
+                        for k_, (acell, r, tag, fv) in enumerate(fs_rows):
+                            backk = parse_poscar(SC_FILES["vasp"][1] % (k_ + 1))
+                            toks = [a_["id"] for a_ in r["atoms"]]
+                            ffk = [fv.get(t, fv[0]) for t in toks]
+                            pc_ = PhonopyAtoms(symbols=[backk.symbols[j] for j in rq], cell=backk.cell,
+                                               scaled_positions=[backk.scaled_positions[j] for j in rq])
+                            emit_vasprun("vasprun-rows-%03d.xml" % (k_ + 1), pc_, [ffk[j] for j in rq])
+                            vfiles.append("vasprun-rows-%03d.xml" % (k_ + 1))
+                        if os.path.exists("FORCE_SETS"):
+                            os.remove("FORCE_SETS")
+                        fsv = collect_force_sets(calc, vfiles, phyml, ph, fs_rows, False, margins)
+                        for (acell, r, tag, _fv), fs in zip(fs_rows, fsv):
+                            events.append(event("forces", calc, acell, r, fs=fs, route="sc", ncl=ncl, mode=mode,
+                                                orbit=list(range(1, n + 1)), rows=[j + 1 for j in rq],
+                                                tag=tag + " + create_FORCE_SETS(type %d, rows %s)" % (dtype, [j + 1 for j in rq])))
+                            nfs += 1
                     if fz and calc == "vasp" and all(1 <= t <= n for t in ref_own):
                         # --fz with a FOREIGN reference file (ZeroRef of Calculators.tla): atoms listed in another
                         # order (fixing k of the n atoms), one atom / all atoms at displaced positions
@@ -678,7 +713,7 @@ JUDGE_NAMES = ["ImplNoError", "ImplSameCrystal", "ImplSameMoments", "ImplOrder",
                "ImplForcesNoError", "ImplForcesPaired", "ImplNotRefused", "ConformsOrder", "ConformsForces",
                "ImplForcesPairedSameOrder", "ImplDisplacementsKept", "ImplSymPaired", "ImplConvertible",
                "ImplConvertCrystal", "ImplZeroRef"]
-MACHINE_INVS = ["TInvSameCrystal", "TInvOrder", "TInvForcesPaired", "TInvConvert", "TInvSym", "TInvZeroRef"]
+MACHINE_INVS = ["TInvSameCrystal", "TInvOrder", "TInvForcesPaired", "TInvConvert", "TInvSym", "TInvZeroRef", "TInvRows"]
 
 CFG_TRACE = """INIT TInit
 NEXT TNext
